@@ -28,12 +28,22 @@ fn op_json(op: &Op) -> J {
     J::S(format!("{:?}", op))
 }
 
+/// index in 0..n; for long dimensions the indices cluster on a few residues modulo 64 (word-size boundaries)
+fn pick_index(rng: &mut Rng, n: usize) -> usize {
+    if n <= 64 {
+        return rng.below(n);
+    }
+    let base = [0usize, 1, 5, 63][rng.below(4)];
+    let cands: Vec<usize> = (0..4).map(|k| base + 64 * k).filter(|&x| x < n).collect();
+    if cands.is_empty() || rng.chance(0.15) { rng.below(n) } else { *rng.pick(&cands) }
+}
+
 fn gen_op(rng: &mut Rng, rows: usize, cols: usize) -> Op {
-    let r = rng.below(rows);
-    let c = rng.below(cols);
+    let r = pick_index(rng, rows);
+    let c = pick_index(rng, cols);
     let list = |rng: &mut Rng, n: usize| -> Vec<usize> {
-        let k = rng.range(0, n + 2);
-        (0..k).map(|_| rng.below(n)).collect() // repeats on purpose
+        let k = rng.range(0, n.min(8) + 2);
+        (0..k).map(|_| pick_index(rng, n)).collect() // repeats on purpose
     };
     match rng.below(12) {
         0..=2 => Op::Insert(r, c),
@@ -175,7 +185,7 @@ fn op_kind(op: &Op) -> &'static str {
 }
 
 pub fn run(run: &mut Run) {
-    run.rule = "random operation histories (length <= 200, all nine mutators incl. bulk inserts with repeated indices) on tiny shapes 1..6 x 1..6 (every 16th up to 12x12, every 256th 20..48 x 20..48); after EVERY operation the whole query API is compared with a BTreeSet model; a history is non-trivial if it executes at least one toggle-off, remove of a present entry or clear/set on a non-empty line; distinct = digest of (shape, operation list)".into();
+    run.rule = "random operation histories (length <= 200, all nine mutators incl. bulk inserts with repeated indices) on tiny shapes 1..6 x 1..6 (every 16th up to 12x12, every 256th 20..48 x 20..48, every 32nd tall or wide with one dimension 65..200 and indices clustered on residues modulo 64); after EVERY operation the whole query API is compared with a BTreeSet model; a history is non-trivial if it executes at least one toggle-off, remove of a present entry or clear/set on a non-empty line; distinct = digest of (shape, operation list)".into();
     run.assumptions = vec![
         "iterator contents are compared as sets (the statement does not fix list order)".into(),
         "out-of-range indices are outside the domain (they index out of bounds by contract)".into(),
@@ -185,8 +195,19 @@ pub fn run(run: &mut Run) {
     run.sub("history", n, |l, idx, rng| {
         let big = idx % 16 == 15;
         let huge = idx % 256 == 255 && !cfg!(miri);
-        let rows = if huge { rng.range(20, 48) } else if big { rng.range(1, 12) } else { rng.range(1, 6) };
-        let cols = if huge { rng.range(20, 48) } else if big { rng.range(1, 12) } else { rng.range(1, 6) };
+        let long = idx % 32 == 7 && !cfg!(miri);
+        let (rows, cols) = if long {
+            // one long dimension (beyond 64 and beyond 128), the other tiny: tall and wide
+            let a = rng.range(65, 200);
+            let b = rng.range(1, 4);
+            if rng.coin() { (a, b) } else { (b, a) }
+        } else if huge {
+            (rng.range(20, 48), rng.range(20, 48))
+        } else if big {
+            (rng.range(1, 12), rng.range(1, 12))
+        } else {
+            (rng.range(1, 6), rng.range(1, 6))
+        };
         let len = if cfg!(miri) { rng.range(1, 25) } else { rng.range(1, 200) };
         let mut h = SparseMatrix::new(rows, cols);
         let mut m = Model::new();
